@@ -224,6 +224,11 @@ def run(ctx):
     rule_resolve(ctx, py)
     rule_tiling(ctx, py)
     rule_units(ctx, py)
+    # shared clauses: the state index (C13.INDEX) and the cell index of a position (C15.RADIX), which the accessors go through
+    from ..core import borrow
+    from . import c13, c15
+    borrow(ctx, "C17", c13.rule_index, ctx.py)
+    borrow(ctx, "C17", c15.rule_radix_py, ctx.py)
     from .. import lints
     lints.run(ctx, "C17", ctx.py, ["rdoutput"], truth_floor=8)
     ctx.assume("returned values are not decided; the data layout written by the engine is C09.LAYOUT-OUT")
